@@ -25,10 +25,12 @@ def norm (s : String) : String := String.ofList (s.toList.filter (fun c => !isBl
 structure IniCfg where
   normKeys : Bool
   ownKeys : Bool
+  /-- `--list-items` also reports the `[Variables]` entries (since fix b361770) -/
+  listVars : Bool
 deriving Repr
 
-def currentCfg : IniCfg := ⟨true, true⟩
-def shippedCfg : IniCfg := ⟨false, false⟩
+def currentCfg : IniCfg := ⟨true, true, true⟩
+def shippedCfg : IniCfg := ⟨false, false, false⟩
 
 inductive Line where
   | sec (name : String)
@@ -144,9 +146,13 @@ def cliOverridesWith (nk : Bool) (overrides removes : List Op) : List Op :=
 
 def cliOverrides (overrides removes : List Op) : List Op := cliOverridesWith true overrides removes
 
-/-- `--list-items`: SECTION:KEY=VALUE for every item of every section, each exactly once -/
-def listItems (c : IniCfg) (ini : Ini) : List (String × String × String) :=
+/-- the items of the sections: SECTION:KEY=VALUE for every item of every section, each exactly once -/
+def listSectionItems (c : IniCfg) (ini : Ini) : List (String × String × String) :=
   ini.sections.flatMap fun (n, kvs) =>
     (sectionKeys c ini n).map fun k => (n, k, ((assocGet kvs k).orElse (fun _ => assocGet ini.vars k)).getD "")
+
+/-- `--list-items`: the items of the sections, then - since fix b361770 - the `[Variables]` entries (items too: addressed as Variables:NAME) -/
+def listItems (c : IniCfg) (ini : Ini) : List (String × String × String) :=
+  listSectionItems c ini ++ (if c.listVars then ini.vars.map fun (k, v) => ("Variables", k, v) else [])
 
 end Atsim
